@@ -5,6 +5,7 @@ import asyncio
 import copy
 import json
 import os
+import re
 import signal
 import tempfile
 import types
@@ -29,6 +30,10 @@ THEOREMS = [
     "C16_cursor_param",
     "C16_resolve_stream",
     "C16_sse_resume",
+    "C16_writers_program",
+    "C16_writers_atomic_insert",
+    "C16_writers_consecutive",
+    "C16_writers_read_then_insert_collides",
 ]
 LEAN_TARGETS = ["WfProps.C16"]
 EXPLANATION = (
@@ -51,7 +56,15 @@ EXPLANATION = (
     "real _WorkflowAPI._stream_events coroutine (fake Request, name-only starlette shim) under a virtual-time, "
     "run-to-quiescence scheduler. Search: monitors on the real stores' outputs (consecutive, exact content, "
     "ends-after-first-terminal, completeness after draining, resume chains, backend agreement, SSE ids) on the same "
-    "streams and on free-running producer/consumer/reconnect scenarios."
+    "streams and on free-running producer/consumer/reconnect scenarios. Several writers on one SQLite file: "
+    "WfModel/EventLogWriters.lean has ONE SQL STATEMENT per step (write lock, uncommitted rows of the lock holder, busy = the "
+    "statement does not run), the program append_event runs is regenerated from the sources (sqlAppendStatements); "
+    "C16_writers_consecutive: any number of writers running it, under any statement interleaving, commit rows numbered "
+    "0,1,2,... in commit order; C16_writers_read_then_insert_collides: SELECT MAX then INSERT does not (twin sequence, "
+    "the resumed stream omits the twin). Implementation side (harness/sqlwriters.py): a second store object on the same "
+    "file, run as another process would at EVERY statement boundary of writer A's operations (append_event, handler update, "
+    "append_tick), a client of B that reads and later reconnects to A; monitors on the committed rows (numbering in commit "
+    "order) and on seen ++ resumed; the observed statement trace is compared with the model statement by statement."
 )
 LEVEL_TEXT = "proof (all append/subscribe interleavings, cursors, terminal positions, both backends) + correspondence + implementation-side monitors"
 ASSUMPTIONS = [
@@ -60,6 +73,11 @@ ASSUMPTIONS = [
     "only through the real stores under harness/vloop.py)",
     "sqlite3: one INSERT ... COALESCE(MAX(sequence),-1)+1 statement is atomic; ORDER BY sequence; a committed row is "
     "visible to the next query on any connection (modelled; exercised with temp files in both connection modes)",
+    "sqlite3 between connections (rollback journal, Python's implicit BEGIN before the first write statement, none for SELECT): "
+    "a write statement of another connection fails/waits while a transaction holds the write lock, reads are not blocked, "
+    "rowid order of one run's rows = commit order (modelled in EventLogWriters; observed with two real connections on a temp "
+    "file; the other writer runs whole operations at a statement boundary of the first, not inside a statement; WAL mode, "
+    "the unix-none VFS of single_connection mode and more than two real writers are not exercised)",
     "run ids are not reused after MemoryWorkflowStore evicts a completed handler's log (max_completed); no code path "
     "deletes part of a run's events (the driver's `trim` op exists only to pin last+1 against count in the correspondence)",
     "query_events(limit<0) is outside the property: Python slicing drops from the end, SQLite LIMIT -1 is unlimited "
@@ -75,6 +93,8 @@ TRUSTED_EXTRA = [
     "harness/gen/eventlog.py (names, statuses, DDL, statement skeletons)",
     "pyshims/starlette (names only: Request/StreamingResponse/HTTPException containers; no routing, no ASGI)",
     "harness/vloop.py run-to-quiescence scheduling (quiescence hook) as the notion of 'one op at a time'",
+    "harness/sqlwriters.py (stand-in for the name `sqlite3` in the store module: real connections of a reporting subclass; "
+    "the second writer on its own thread and event loop)",
 ]
 
 POLL = 1.0
@@ -1124,6 +1144,344 @@ def gen_free(rng) -> dict:
 
 
 # --------------------------------------------------------------------------
+# two writers on one SQLite file, interleaved BETWEEN SQL STATEMENTS (harness/sqlwriters.py)
+#
+# SqliteWorkflowStore opens a connection per call and is meant to be used by several processes / store objects on
+# one db_path (subscribe_events polls for rows written by somebody else).  Inside one event loop nothing can run
+# between two statements of an operation, so the op streams above never show what another writer's commit does
+# when it lands there.  Here writer A (this thread, virtual-time loop) performs an operation; at a chosen statement
+# boundary of it writer B (a second store object on the same file, own thread and loop = another process) performs
+# whole append_event calls, and a client connected to B reads what is committed and disconnects.  Afterwards the
+# client reconnects to A with the last sequence it saw.  Oracle = the property on what was committed (the harness
+# knows the commit order because it owns the schedule): numbering 0,1,2,... in commit order, and
+# seen-before-the-disconnect ++ resumed-stream = the uninterrupted stream.
+
+WRUN = "r1"
+W_WALL_LIMIT = 30.0
+W_NEVER = 10 ** 6  # a boundary that is never reached: B runs right after A's operation (op-level interleaving)
+A_OPS = ("append", "update", "tick")
+
+
+def run_writers(I: dict, case: dict) -> dict:
+    """-> {"violations", "lines", "impl", "stmts" (statements A executed per step), "fired", "notes"}"""
+    import itertools
+    import sqlite3
+    import sys
+
+    from .. import sqlwriters as sw
+
+    mod = sys.modules[I["Sqlite"].__module__]
+    lines: list[str] = []
+    impl: list[str] = []
+    res: dict[str, Any] = {"violations": [], "lines": lines, "impl": impl, "stmts": [], "fired": [], "notes": []}
+    committed: list[tuple[int, str]] = []  # (tag, kind) in commit order
+    errors: list[str] = []
+    client: dict[str, Any] = {"after": case.get("after", -1), "cursor": case.get("after", -1), "seen": [], "connections": 0,
+                              "ended": False, "timeout": False}
+    full: dict[str, Any] = {"seen": [], "ended": False, "timeout": False}
+    holder: dict[str, Any] = {}
+    tags = itertools.count()
+    st: dict[str, Any] = {"armed": None, "count": 0, "op": False, "queue": [], "read": False, "appending": set(), "path": None}
+    WID = {"A": 0, "B": 1}
+    tap = sw.Tap()
+    tap.timeouts = {"B": 0.0}  # B never sleeps on A's lock: a boundary at which it would have to wait is observed as such
+
+    def raw_rows() -> list[tuple[int, Any]]:
+        conn = sqlite3.connect(st["path"], timeout=0)
+        try:
+            rows = conn.execute("SELECT sequence, event_json FROM events WHERE run_id = ? ORDER BY rowid", (WRUN,)).fetchall()
+        finally:
+            conn.close()
+        out = []
+        for seq, js in rows:
+            try:
+                tag = json.loads(js)["value"].get("tag")
+            except Exception:  # noqa: BLE001
+                tag = None
+            out.append((seq, tag))
+        return out
+
+    def after(conn: Any, kind: str, text: str, params: tuple, cur: Any, exc: BaseException | None) -> None:
+        if conn.actor not in st["appending"]:
+            if conn.actor == "A" and st["op"]:
+                # another writing operation of A (handler row, tick): for the event log only its hold on the write lock matters
+                if kind == "commit" and exc is None:
+                    lines.append("wraw|0|commit")
+                    impl.append("commit log=" + ",".join(str(s) for s, _ in raw_rows()))
+                elif re.match(r"(INSERT|UPDATE|DELETE|REPLACE)\b", text, re.I):
+                    lines.append("wraw|0|write")
+                    impl.append("write" if exc is None else ("busy" if sw.is_lock_error(exc) else f"raises {type(exc).__name__}"))
+            return
+        if exc is not None:
+            o = "busy" if sw.is_lock_error(exc) else f"raises {type(exc).__name__}"
+        elif kind == "commit":
+            o = "commit log=" + ",".join(str(s) for s, _ in raw_rows())
+        elif kind == "execute" and re.match(r"INSERT INTO events\b", text, re.I):
+            row = conn.plain_cursor().execute("SELECT sequence FROM events WHERE rowid = ?", (cur.lastrowid,)).fetchone()
+            o = f"insert seq={row[0] if row else '?'}"
+        else:
+            o = "other " + text.split(" ")[0].upper()
+        lines.append(f"wstmt|{WID[conn.actor]}")
+        impl.append(o)
+
+    def before(conn: Any, kind: str, text: str, params: tuple) -> None:
+        if conn.actor != "A" or not st["op"]:
+            return
+        idx = st["count"]
+        st["count"] += 1
+        if st["armed"] is not None and idx == st["armed"]:
+            st["armed"] = None
+            res["fired"].append((idx, text[:60]))
+            run_b()
+
+    tap.before, tap.after = before, after
+
+    async def do_append(actor: str, store: Any, kind: str, tag: int) -> bool:
+        kd = I["kinds"][kind]
+        lines.append(f"wbegin|{WID[actor]}|{tag}|{kd['type']}|{','.join(kd['types'] or [])}")
+        impl.append("ok")
+        st["appending"].add(actor)
+        try:
+            await store.append_event(WRUN, envelope(I, kind, tag))
+        except Exception as e:  # noqa: BLE001
+            st["appending"].discard(actor)
+            lines.append(f"wend|{WID[actor]}")
+            impl.append("aborted")
+            if actor == "B" and sw.is_lock_error(e):
+                return False
+            raise
+        st["appending"].discard(actor)
+        lines.append(f"wend|{WID[actor]}")
+        impl.append("done")
+        committed.append((tag, kind))
+        return True
+
+    async def client_read(store: Any) -> None:
+        avail = await store.query_events(WRUN, after_sequence=client["cursor"])
+        if not avail:
+            return
+        client["connections"] += 1
+        gen = store.subscribe_events(WRUN, after_sequence=client["cursor"])
+        try:
+            for _ in range(len(avail)):
+                try:
+                    ev = await asyncio.wait_for(gen.__anext__(), 10.0)
+                except StopAsyncIteration:
+                    client["ended"] = True
+                    break
+                client["seen"].append((ev.sequence, ev.event.value.get("tag")))
+                client["cursor"] = ev.sequence
+        finally:
+            await gen.aclose()
+
+    async def b_job() -> None:
+        while st["queue"]:
+            kind, tag = st["queue"][0]
+            if not await do_append("B", holder["b"], kind, tag):
+                return  # B has to wait for A's transaction: it proceeds when A is done
+            st["queue"].pop(0)
+        if st["read"]:
+            st["read"] = False
+            await client_read(holder["b"])
+
+    def run_b() -> None:
+        prev = tap.actor
+        tap.actor = "B"
+        try:
+            sw.in_thread(b_job)
+        except sw.Stuck as e:
+            errors.append(f"writer B: stuck: {e}")
+        except Exception as e:  # noqa: BLE001
+            errors.append(f"writer B: {type(e).__name__}: {e}")
+            st["queue"], st["read"] = [], False
+        finally:
+            tap.actor = prev
+
+    async def drain(store: Any, into: dict, after_seq: int, limit: int) -> None:
+        async def go() -> None:
+            async for ev in store.subscribe_events(WRUN, after_sequence=after_seq):
+                into["seen"].append((ev.sequence, ev.event.value.get("tag")))
+                if len(into["seen"]) > limit:
+                    into["overflow"] = True
+                    return
+            into["ended"] = True
+
+        try:
+            await asyncio.wait_for(go(), timeout=20 * POLL)
+        except asyncio.TimeoutError:
+            into["timeout"] = True
+
+    async def main(loop: vloop.VLoop) -> None:
+        with tempfile.TemporaryDirectory(prefix="c16w_", dir=TMP_ROOT) as tmp:
+            st["path"] = os.path.join(tmp, "w.db")
+            a = I["Sqlite"](st["path"], poll_interval=POLL)
+            b = I["Sqlite"](st["path"], poll_interval=POLL)
+            holder["a"], holder["b"] = a, b
+            tap.actor = "A"
+            try:
+                for kind in case.get("prefix", []):
+                    await do_append("A", a, kind, next(tags))
+                for step in case["steps"]:
+                    st["queue"] = [(k, next(tags)) for k in step.get("b", [])]
+                    st["read"] = bool(step.get("read"))
+                    st["armed"], st["count"], st["op"] = step.get("at", W_NEVER), 0, True
+                    op = step["a"]
+                    try:
+                        if op[0] == "append":
+                            await do_append("A", a, op[1], next(tags))
+                        elif op[0] == "update":
+                            await a.update(I["Handler"](handler_id="h1", workflow_name="w", status=op[1], run_id=WRUN))
+                        elif op[0] == "tick":
+                            await a.append_tick(WRUN, {"n": len(committed)})
+                        else:
+                            raise ValueError(op)
+                    finally:
+                        st["op"], st["armed"] = False, None
+                    res["stmts"].append(st["count"])
+                    if st["queue"] or st["read"]:
+                        run_b()
+                        if st["queue"]:
+                            errors.append("writer B: blocked: the database is still locked after writer A's operation returned")
+                            st["queue"] = []
+                for kind in case.get("tail", []):
+                    await do_append("A", a, kind, next(tags))
+            except ValueError:
+                raise
+            except Exception as e:  # noqa: BLE001
+                errors.append(f"writer A: {type(e).__name__}: {e}")
+            tap.actor = None
+            holder["raw"] = raw_rows()
+            holder["stored"] = [(e.sequence, e.event.value.get("tag")) for e in await a.query_events(WRUN)]
+            limit = 3 * len(committed) + 10
+            client["connections"] += 1
+            await drain(a, client, client["cursor"], limit + len(client["seen"]))
+            await drain(a, full, -1, limit)
+
+    try:
+        with sw.installed(mod, tap):
+            with_watchdog(W_WALL_LIMIT, lambda: vloop.run_virtual(main, max_time=1000.0 + 1_000_000.0))
+    except TimeoutError:
+        errors.append("harness: deadlock: virtual loop deadlocked")
+    except WallTimeout:
+        errors.append(f"harness: livelock: the scenario kept running for {W_WALL_LIMIT:.0f} s of real time")
+    if tap.connections == 0:
+        res["notes"].append("two-writer scenarios: the statement tap saw no connection (the store module no longer opens them through "
+                            "its `sqlite3` name); statement boundaries were not exercised")
+
+    vs: list[Violation] = res["violations"]
+    name = "sqlite"
+    where = "; ".join(f"B ran before A's statement #{i} ({t!r})" for i, t in res["fired"]) or "B ran between A's operations"
+
+    def V(rule: str, facts: str, what: str) -> None:
+        vs.append(Violation(f"C16/{rule}[store={name},{facts},writers=two-connections]", f"{name}, two writers on one file ({where}): {what}", case))
+
+    for e in errors:
+        parts = e.split(": ")
+        V("store_raises", "what=" + (parts[1] if len(parts) > 1 else "?"), e)
+    if "raw" not in holder:
+        return res
+    pub = committed
+    raw = holder["raw"]
+    seqs = [s for s, _ in raw]
+    want_tags = [t for t, _ in pub]
+    if seqs != list(range(len(pub))) or [t for _, t in raw] != want_tags:
+        if len(raw) != len(pub):
+            how = "row-count"
+        elif len(set(seqs)) < len(seqs):
+            how = "duplicate-sequence"
+        elif sorted(seqs) != list(range(len(pub))):
+            how = "gap"
+        else:
+            how = "commit-order"
+        V("consecutive", f"what={how}",
+          f"{len(pub)} events were committed in the order (payload tags) {want_tags}; the table holds (sequence, tag) in rowid order {raw}; "
+          f"expected sequences 0..{len(pub) - 1} in commit order")
+    elif holder["stored"] != list(zip(range(len(pub)), want_tags)):
+        V("query", f"what={classify(holder['stored'], list(zip(range(len(pub)), want_tags)))}",
+          f"query_events returned {holder['stored']} for the committed events {want_tags}")
+    want = expected_stream(I, pub, client["after"])
+    if client["seen"] != want:
+        got_t, want_t = [t for _, t in client["seen"]], [t for _, t in want]
+        if any(t not in got_t for t in want_t):
+            how = "event-lost"
+        elif len(set(got_t)) < len(got_t):
+            how = "event-twice"
+        elif got_t != want_t:
+            how = "out-of-order" if sorted(got_t, key=repr) == sorted(want_t, key=repr) else "not-in-stream"
+        else:
+            how = "renumbered"
+        V("resume", f"what={how},reconnects={'yes' if client['connections'] > 1 else 'no'}",
+          f"a client subscribed after {client['after']} read {client['seen']} over {client['connections']} connection(s), "
+          f"reconnecting with the last sequence it had seen; the uninterrupted stream is {want}")
+    elif has_terminal(I, pub, client["after"]) and not client["ended"]:
+        V("ends_after_terminal", "what=not-ended", f"the resumed client received the terminal event {want[-1]} and its stream is still open")
+    wantf = expected_stream(I, pub, -1)
+    if full["seen"] != wantf:
+        V("subscribe_exact", f"what={classify(full['seen'], wantf)},cursor=start",
+          f"a subscriber after -1 opened when all was committed yielded {full['seen']}; expected {wantf}")
+    return res
+
+
+def writers_case(prefix: list[str], steps: list[dict], tail: list[str], after: int = -1) -> dict:
+    return {"kind": "writers", "prefix": prefix, "after": after, "steps": steps, "tail": tail}
+
+
+def gen_writers(rng) -> dict:
+    prefix = [gen_kind(rng, 0.0) for _ in range(rng.choice([0, 1, 2, 2, 3]))]
+    steps = []
+    for _ in range(rng.choice([1, 1, 2, 3])):
+        x = rng.random()
+        a = ["append", gen_kind(rng, 0.0)] if x < 0.7 else (["update", rng.choice(["running", "completed"])] if x < 0.85 else ["tick"])
+        steps.append({"a": a, "at": rng.choice([0, 1, 2, 3, W_NEVER]), "b": [gen_kind(rng, 0.0) for _ in range(rng.choice([1, 1, 2]))],
+                      "read": rng.random() < 0.6})
+    after = rng.choice([-1, -1, -1, len(prefix) - 1, rng.randint(-1, len(prefix))])
+    return writers_case(prefix, steps, [rng.choice(TERMINAL)], after)
+
+
+def writers_corpus() -> list[dict]:
+    cs: list[dict] = []
+    wit = os.path.join(os.path.dirname(os.path.dirname(os.path.abspath(__file__))), "corpus", "c16_two_writers_between_statements.json")
+    try:
+        cs += json.load(open(wit))["cases"]
+    except (OSError, KeyError, ValueError):
+        pass
+    return cs
+
+
+def check_writers(I: dict, base: dict, out: Outcome, batches: dict[str, list], sweep: bool) -> list[Violation]:
+    """run the case; with `sweep`, also once per statement boundary of each of A's operations (the number of
+    statements is whatever the implementation executes)"""
+    vs: list[Violation] = []
+
+    def one(case: dict) -> dict:
+        r = run_writers(I, case)
+        out.evaluations += 1
+        out.count("stream:writers")
+        out.count("writers:B-ran-" + ("between-statements" if r["fired"] else "between-operations"))
+        for step in case["steps"]:
+            out.count("writers:A-op-" + step["a"][0])
+        out.count("writers:statements-observed", len(r["lines"]))
+        for n in r["notes"]:
+            if n not in out.notes:
+                out.notes.append(n)
+        batches.setdefault("sql", []).append(("sql", case, r["lines"], r["impl"]))
+        out.nontrivial(("writers", case["steps"], case.get("prefix"), case.get("after")))
+        return r
+
+    r0 = one(base)
+    vs += r0["violations"]
+    if sweep:
+        for s, n in enumerate(r0["stmts"]):
+            for j in range(n):
+                if base["steps"][s].get("at", W_NEVER) == j:
+                    continue
+                c = copy.deepcopy(base)
+                c["steps"][s]["at"] = j
+                vs += one(c)["violations"]
+    return vs
+
+
+# --------------------------------------------------------------------------
 
 
 def full_ops(case: dict) -> list[list]:
@@ -1264,7 +1622,8 @@ def run(env: Env) -> Outcome:
                 "position, advanced one item at a time, cancelled and reconnected, queries with cursor and limit, poll ticks, external "
                 "SQLite writers, storage-level deletion (correspondence only), endpoint requests with now / integer / unparsable "
                 "after_sequence and Last-Event-ID in SSE and NDJSON mode; every stream ends with a drain phase; plus free-running "
-                "producer/consumer/reconnect tasks under virtual time. non-trivial = a stream in which some subscriber received an "
+                "producer/consumer/reconnect tasks under virtual time; plus two store objects on one SQLite file, the second one appending "
+                "(and its client reading) at every statement boundary of the first one's append_event / update / append_tick. non-trivial = a stream in which some subscriber received an "
                 "event; distinct by op list")
     I = load_impl()
     api_ok = I["api"] is not None
@@ -1273,13 +1632,17 @@ def run(env: Env) -> Outcome:
     rng = env.rng
     cases: list[dict] = []
     free_cases: list[dict] = []
+    wcases: list[tuple[dict, bool]] = []
     if env.replay is not None:
         rc = env.replay.get("payload", {}).get("case")
         if isinstance(rc, dict) and rc.get("kind") in ("core", "ext", "trim", "api"):
             cases.append({"kind": rc["kind"], "ops": rc["ops"]})
         elif isinstance(rc, dict) and rc.get("kind") == "free":
             free_cases.append(rc["scenario"])
+        elif isinstance(rc, dict) and rc.get("kind") == "writers":
+            wcases.append((rc, False))
     cases += corpus()
+    wcases += [(c, True) for c in writers_corpus()]
     n_core, n_ext, n_trim, n_api, n_free = (env.budget(26, 900), env.budget(10, 350), env.budget(8, 250), env.budget(16, 600), env.budget(10, 400))
     for _ in range(n_core):
         cases.append(gen_store_stream(rng, "core"))
@@ -1292,9 +1655,18 @@ def run(env: Env) -> Outcome:
     cases.append({"kind": "core", "ops": [["malformed", m] for m in MALFORMED]})
     for _ in range(n_free):
         free_cases.append(gen_free(rng))
+    for _ in range(env.budget(5, 60)):  # drawn last: the streams above stay what they were for a given seed
+        wcases.append((gen_writers(rng), True))
 
     batches: dict[str, list] = {}
     seen_sigs: set[str] = set()
+    for wcase, sweep in wcases:
+        if len(seen_sigs) >= FAIL_FAST:
+            break
+        for v in check_writers(I, wcase, out, batches, sweep):
+            if v.signature not in seen_sigs:
+                seen_sigs.add(v.signature)
+                out.violations.append(v)
     for case in cases:
         out.count("stream:" + case["kind"])
         for op in case["ops"]:
